@@ -304,6 +304,8 @@ def generate(rng, idx, tier, variant):
         n = 300  # well past any small-number special case (e.g. CPython's cached small integers)
     stype = rng.choice(LINKER_SPANS if (fam == 'linker' and not one_sub) else spans.TYPES)
     spec = {'family': fam, 'span': {'type': stype, 'n': n, 'origin': rng.choice([0, 1, 3, 7]), 'step': rng.choice([2, 2, 3])}, 'strict': rng.random() < 0.25}
+    if stype in spans.ORDERABLE and variant in ('labels', 'container', 'copies') and rng.random() < 0.25:
+        spec['span']['order'] = rng.choice(['desc', 'shuffle', 'swap', 'swap'])  # labels that are not in sorted order
     g = {'base': 0, 'names': {0: []}, 'np': 1}
     ELEMS = {'float': 'float', 'int': 'int', 'bool': 'bool', 'str': 'str'}
     if mixed_family(fam):
